@@ -31,6 +31,8 @@ type c16Client struct {
 	sentTo map[*udpTarget]int
 }
 
+var c16GarbageSeq int64
+
 func c16Run(c *vk.Ctx) {
 	lab.MustSetup(c.RunDir)
 	r := c.Rng
@@ -192,7 +194,10 @@ func c16Round(c *vk.Ctx, r *rand.Rand, round int) bool {
 	reg.MustRegister(sm)
 	natTimeout := 30 * time.Second // associations end at shutdown; nothing expires mid-run
 	w := &c03World{keys: keys, salts: map[string]bool{}}
-	w.rig = StartUDPRig(keys, UDPRigOpts{NatTimeout: natTimeout, Tee: sm})
+	w.rig = StartUDPRig(keys, UDPRigOpts{NatTimeout: natTimeout, Tee: sm, ViaService: c.Batch%2 == 1})
+	if c.Batch%2 == 1 {
+		c.Count("rounds_through_the_service_wrapper", 1)
+	}
 	b := byte(c.Batch)
 	for i, s := range []struct {
 		ip   net.IP
@@ -329,6 +334,11 @@ func c16Round(c *vk.Ctx, r *rand.Rand, round int) bool {
 				exp = c16Expect{"ERR_CIPHER", int64(len(pkt)), 0}
 			case "garbage":
 				pkt = randBytes(r, size+60)
+				if atomic.AddInt64(&c16GarbageSeq, 1)%2 == 0 {
+					// shorter than any datagram that could authenticate (salt + address + tag): read, so reported
+					pkt = randBytes(r, 1+r.Intn(38))
+					c.Count("short_garbage_on_live_associations", 1)
+				}
 				exp = c16Expect{"ERR_CIPHER", int64(len(pkt)), 0}
 			case "dest-private":
 				pkt = ssUDP(k, randBytes(r, ss), []byte{1, 192, 168, byte(r.Intn(256)), 1, 0x1b, 0x59}, mkUDPPayload(id, 0, 0, size))
